@@ -283,6 +283,18 @@ def run_sess(shard, tier, acc):
         full = S.run_guesser(td, ['-r', 'v'] + flags)
         acc.evals += 1
         total = len(full.stdout)
+        # what the program writes under the flags is the language of the ruleset under the flags, line for line (nothing else on standard output)
+        types_f, base_f = R.ref_loaded(spec, '--skip_brute' in flags, '--all_lower' in flags)
+        lang_f = Counter()
+        for bp, reps_ in base_f:
+            for ix in itertools.product(*[range(len(types_f[r])) for r in reps_]):
+                lang_f.update(R.expand_pt(types_f, list(zip(reps_, ix)), omen=spec.get('omen', R.DEFAULT_OMEN)))
+        if not full.exc and Counter(full.stdout) != lang_f:
+            extra = list((Counter(full.stdout) - lang_f).elements())[:3]
+            missing = list((lang_f - Counter(full.stdout)).elements())[:3]
+            acc.fail({'kind': 'sess', 'spec_index': i, 'spec': spec, 'flags': flags, 'j': -1},
+                     'pcfg_guesser %s wrote %d lines, the ruleset under these flags has %d guesses: lines that are not (or too often) guesses %r, guesses not written %r'
+                     % (' '.join(flags), len(full.stdout), sum(lang_f.values()), extra, missing), 'flagged-stream-not-the-language')
         seen = set()
         for j in range(0, total):
             S.clear_session(td)
